@@ -19,13 +19,24 @@
  *                  mutex, a writer trylock on it succeeds whatever the threads do with the first lock, a reader
  *                  trylock then fails, and the first lock's counter words do not move.  `twin ok` or `twin !<what>`
  *   null OP        p_rwlock_<OP> (NULL): `null OP ret=0`, or `... ret=1 !NULL-ACCEPTED`
- *   auto SEED N P  (not part of the diff protocol) the harness schedules itself: up to N random
- *                  steps among the enabled threads, spurious wake-up with probability P percent;
+ *   fail T         thread T performs the primitive call it is suspended at (p_mutex_lock, p_cond_variable_wait, signal,
+ *                  broadcast, p_mutex_unlock) and the call returns FALSE having done nothing (a failed p_mutex_unlock
+ *                  leaves the mutex owned).  A thread stops after an unlock CALL that failed at its p_mutex_lock (it still
+ *                  holds) and after any call that met a failed p_mutex_unlock (it owns the internal mutex for ever).
+ *   free           (after start) p_rwlock_free (lock): `free struct=N mutex=N cv=N` = how often p_free was called with the
+ *                  lock structure and p_mutex_free / p_cond_variable_free with its parts; only `reset` may follow
+ *   newfail K      p_rwlock_new () whose K-th allocation (0 structure, 1 mutex, 2 read_cv, 3 write_cv) fails:
+ *                  `newfail K ret=NULL struct=N mutex=N cv=N` (what was released), `ret=OBJECT` if it did not return NULL
+ *   auto SEED N P [F]  (not part of the diff protocol) the harness schedules itself: up to N random
+ *                  steps among the enabled threads, spurious wake-up with probability P percent, a `fail` op with
+ *                  probability F per mille;
  *                  prints the ops it chose and a final line `auto <end|deadlock|unsafe|limit>`
  * status line: see lean/PV/Driver/RWLock.lean.  The harness's own oracle appends
  *   !DEADLOCK  no thread can make a step although some program is unfinished
  *   !UNSAFE    (sticky) an acquire call returned TRUE while the user-level holders forbid it
  *   !TRYBLOCK  (sticky) a trylock call reached p_cond_variable_wait ("trylock never blocks")
+ *   !INCONSISTENT (sticky, not after `nospec`) at a moment when the internal mutex is free the reader / writer fields of
+ *              active_threads differ from the numbers of user-level holders (a failed lock call counted as holding, ...)
  */
 #define _GNU_SOURCE
 #include <stdio.h>
@@ -41,9 +52,13 @@
 #include "prwlock.h"
 
 /* ---- allocation (pmem.c is not linked) ---- */
-P_LIB_API ppointer p_malloc0 (psize n) { return calloc (1, n); }
+static int g_alloc_fail = -1;      /* newfail: which allocation of p_rwlock_new fails (counted down), -1 none */
+static int g_track = 0;            /* count the releases */
+static int n_pfree = 0, n_mfree = 0, n_cvfree = 0;
+static int alloc_fails_now (void) { if (g_alloc_fail < 0) return 0; if (g_alloc_fail == 0) { g_alloc_fail = -1; return 1; } g_alloc_fail--; return 0; }
+P_LIB_API ppointer p_malloc0 (psize n) { if (alloc_fails_now ()) return NULL; return calloc (1, n); }
 P_LIB_API ppointer p_malloc (psize n) { return malloc (n); }
-P_LIB_API void p_free (ppointer p) { free (p); }
+P_LIB_API void p_free (ppointer p) { if (g_track) n_pfree++; free (p); }
 
 #include "prwlock-general.c"
 
@@ -69,6 +84,7 @@ typedef struct {
 	int status;
 	PCondVariable *cv;  /* for W B K S C */
 	int last_op, last_ret;   /* last_op < 0: none */
+	int stop;                /* the thread makes no further call (see `fail`) */
 } Thr;
 
 static Thr thr[MAXT];
@@ -76,6 +92,8 @@ static int nthr = 0, started = 0;
 static ucontext_t main_ctx;
 static int cur = -1;        /* running coroutine */
 static int g_pick = -1;
+static int g_fail = 0;      /* the primitive call the resumed thread performs returns FALSE */
+static int nospec = 0, inconsistent_seen = 0, freed = 0;
 static PRWLock *g_lock = NULL;
 static FILE *out;
 
@@ -93,13 +111,15 @@ static void yield_at (int status, PCondVariable *cv) {
 }
 
 /* ---- harness-side primitives ---- */
-P_LIB_API PMutex *p_mutex_new (void) { PMutex *m = calloc (1, sizeof *m); if (m) m->owner = -1; return m; }
-P_LIB_API void p_mutex_free (PMutex *m) { free (m); }
+P_LIB_API PMutex *p_mutex_new (void) { PMutex *m; if (alloc_fails_now ()) return NULL; m = calloc (1, sizeof *m); if (m) m->owner = -1; return m; }
+P_LIB_API void p_mutex_free (PMutex *m) { if (g_track) n_mfree++; free (m); }
+static int cur_op_is_unlock (void) { return cur >= 0 && thr[cur].idx < thr[cur].nops && thr[cur].ops[thr[cur].idx] >= 4; }
 #define ME (cur < 0 ? -2 : cur)
 static int main_ctx_blocked = 0;      /* the scheduler's own context met a mutex that is owned / a wait */
 static jmp_buf main_ctx_jb;           /* a wait reached from the scheduler's context cannot return: leave the call */
 P_LIB_API pboolean p_mutex_lock (PMutex *m) {
 	yield_at (ST_L, NULL);
+	if (cur >= 0 && g_fail) { g_fail = 0; if (cur_op_is_unlock ()) thr[cur].stop = 1; return FALSE; }
 	if (cur < 0 && m->owner != -1) { main_ctx_blocked = 1; return FALSE; }
 	if (m->owner != -1) { fprintf (out, "harness-error: mutex_lock resumed while owned\n"); fflush (out); abort (); }
 	m->owner = ME;
@@ -113,16 +133,18 @@ P_LIB_API pboolean p_mutex_trylock (PMutex *m) {
 }
 P_LIB_API pboolean p_mutex_unlock (PMutex *m) {
 	yield_at (ST_U, NULL);
+	if (cur >= 0 && g_fail) { g_fail = 0; thr[cur].stop = 1; return FALSE; }
 	if (cur < 0 && m->owner != -2) { main_ctx_blocked = 1; return FALSE; }
 	if (m->owner != ME) { fprintf (out, "harness-error: mutex_unlock by non-owner\n"); fflush (out); abort (); }
 	m->owner = -1;
 	return TRUE;
 }
-P_LIB_API PCondVariable *p_cond_variable_new (void) { return calloc (1, sizeof (PCondVariable)); }
-P_LIB_API void p_cond_variable_free (PCondVariable *c) { free (c); }
+P_LIB_API PCondVariable *p_cond_variable_new (void) { if (alloc_fails_now ()) return NULL; return calloc (1, sizeof (PCondVariable)); }
+P_LIB_API void p_cond_variable_free (PCondVariable *c) { if (g_track) n_cvfree++; free (c); }
 P_LIB_API pboolean p_cond_variable_wait (PCondVariable *c, PMutex *m) {
 	if (cur < 0) { main_ctx_blocked = 1; longjmp (main_ctx_jb, 1); }
 	yield_at (ST_W, c);
+	if (g_fail) { g_fail = 0; return FALSE; }      /* fails at once: nothing released */
 	if (m->owner != cur) { fprintf (out, "harness-error: wait without owning the mutex\n"); fflush (out); abort (); }
 	m->owner = -1;                 /* atomically release and block */
 	yield_at (ST_B, c);            /* resumed only when woken (status K) and the mutex is free */
@@ -134,6 +156,7 @@ P_LIB_API pboolean p_cond_variable_signal (PCondVariable *c) {
 	int i, u = -1;
 	yield_at (ST_S, c);
 	if (cur < 0) return TRUE;
+	if (g_fail) { g_fail = 0; return FALSE; }
 	if (g_pick >= 0) u = g_pick;   /* validated by the scheduler */
 	else for (i = 0; i < nthr; i++) if (thr[i].status == ST_B && thr[i].cv == c) { u = i; break; }
 	if (u >= 0) thr[u].status = ST_K;
@@ -143,6 +166,7 @@ P_LIB_API pboolean p_cond_variable_broadcast (PCondVariable *c) {
 	int i;
 	yield_at (ST_C, c);
 	if (cur < 0) return TRUE;
+	if (g_fail) { g_fail = 0; return FALSE; }
 	for (i = 0; i < nthr; i++) if (thr[i].status == ST_B && thr[i].cv == c) thr[i].status = ST_K;
 	return TRUE;
 }
@@ -174,6 +198,7 @@ static void thread_main (int t) {
 			else { if (anyw) unsafe_seen = 1; hold_r[t]++; }
 		}
 		th->idx++;
+		if (th->stop) { th->idx = th->nops; break; }
 		/* client convention: a failed acquire skips the matching unlock */
 		if (is_acq (op) && !r && th->idx < th->nops && th->ops[th->idx] == rel_of (op))
 			th->idx++;
@@ -236,9 +261,15 @@ static void print_status (void) {
 		if (th->status != ST_D) alldone = 0;
 		if (enabled (t)) anyen = 1;
 	}
+	if (!nospec && mutex_owner () == -1) {
+		unsigned nr = 0, nw = 0;
+		for (t = 0; t < nthr; t++) { nr += hold_r[t]; nw += hold_w[t]; }
+		if (P_RWLOCK_READER_COUNT (g_lock->active_threads) != nr || P_RWLOCK_WRITER_COUNT (g_lock->active_threads) != nw) inconsistent_seen = 1;
+	}
 	if (!alldone && !anyen) n += snprintf (buf + n, sizeof buf - n, " !DEADLOCK");
 	if (unsafe_seen) n += snprintf (buf + n, sizeof buf - n, " !UNSAFE");
 	if (tryblock_seen) n += snprintf (buf + n, sizeof buf - n, " !TRYBLOCK");
+	if (inconsistent_seen) n += snprintf (buf + n, sizeof buf - n, " !INCONSISTENT");
 	fprintf (out, "%s\n", buf);
 }
 
@@ -260,6 +291,9 @@ static void do_reset (void) {
 	for (t = 0; t < nthr; t++) { free (thr[t].stack); }
 	memset (thr, 0, sizeof thr);
 	nthr = 0; started = 0; cur = -1; g_pick = -1; unsafe_seen = 0; tryblock_seen = 0; main_ctx_blocked = 0;
+	g_fail = 0; nospec = 0; inconsistent_seen = 0; g_alloc_fail = -1; g_track = 0;
+	if (freed) { g_lock = NULL; freed = 0; }
+	p_rwlock_shutdown ();
 	memset (hold_r, 0, sizeof hold_r); memset (hold_w, 0, sizeof hold_w);
 	if (g_lock) {
 		/* threads may be parked inside the lock: free the parts, not p_rwlock_free (it warns) */
@@ -271,6 +305,7 @@ static void do_reset (void) {
 static int do_start (void) {
 	int t;
 	if (started) return 0;
+	p_rwlock_init ();
 	g_lock = p_rwlock_new ();
 	if (!g_lock) return 0;
 	for (t = 0; t < nthr; t++) {
@@ -293,7 +328,7 @@ static int do_start (void) {
 /* returns 0 when not enabled */
 static int do_run (int t, int pick) {
 	Thr *th;
-	if (!started || t < 0 || t >= nthr || !enabled (t)) return 0;
+	if (!started || freed || t < 0 || t >= nthr || !enabled (t)) return 0;
 	th = &thr[t];
 	g_pick = -1;
 	if (th->status == ST_S && pick >= 0) {
@@ -312,8 +347,44 @@ static int do_run (int t, int pick) {
 	return 1;
 }
 
+/* thread t's next primitive call fails; returns 0 when t is not suspended at the entry of a primitive call */
+static int do_fail (int t) {
+	Thr *th;
+	if (!started || freed || t < 0 || t >= nthr) return 0;
+	th = &thr[t];
+	if (th->status != ST_L && th->status != ST_W && th->status != ST_S && th->status != ST_C && th->status != ST_U) return 0;
+	g_pick = -1;
+	g_fail = 1;
+	resume (t);
+	g_fail = 0;
+	return 1;
+}
+
+/* p_rwlock_free on the live lock (threads may be parked inside: they are never resumed afterwards) */
+static void do_free (void) {
+	PRWLock *l = g_lock;
+	n_pfree = n_mfree = n_cvfree = 0;
+	g_track = 1;
+	p_rwlock_free (l);
+	g_track = 0;
+	freed = 1;
+	fprintf (out, "free struct=%d mutex=%d cv=%d\n", n_pfree, n_mfree, n_cvfree);
+}
+
+static void do_newfail (int k) {
+	PRWLock *l;
+	n_pfree = n_mfree = n_cvfree = 0;
+	g_track = 1;
+	g_alloc_fail = k;
+	l = p_rwlock_new ();
+	g_alloc_fail = -1;
+	g_track = 0;
+	fprintf (out, "newfail %d ret=%s struct=%d mutex=%d cv=%d\n", k, l ? "OBJECT" : "NULL", n_pfree, n_mfree, n_cvfree);
+	/* a non-NULL result is a half-built object: not released (its parts may be NULL or already freed) */
+}
+
 static int do_spur (int t) {
-	if (!started || t < 0 || t >= nthr || thr[t].status != ST_B) return 0;
+	if (!started || freed || t < 0 || t >= nthr || thr[t].status != ST_B) return 0;
 	thr[t].status = ST_K;
 	return 1;
 }
@@ -360,7 +431,7 @@ static unsigned rnd (void) {
 	return (unsigned) (rng_state >> 33);
 }
 
-static void do_auto (unsigned long long seed, long nsteps, int spur_pct) {
+static void do_auto (unsigned long long seed, long nsteps, int spur_pct, int fail_pm) {
 	long i;
 	rng_state = seed * 2654435761ULL + 12345;
 	for (i = 0; i < nsteps; i++) {
@@ -369,6 +440,11 @@ static void do_auto (unsigned long long seed, long nsteps, int spur_pct) {
 		if (all_done ()) { fprintf (out, "auto end\n"); return; }
 		if (is_deadlock ()) { fprintf (out, "auto deadlock\n"); return; }
 		for (t = 0; t < nthr; t++) { if (enabled (t)) cand[nc++] = t; if (thr[t].status == ST_B) blk[nb++] = t; }
+		if (fail_pm > 0 && (int) (rnd () % 1000) < fail_pm) {
+			int fc[MAXT], nf = 0;
+			for (t = 0; t < nthr; t++) { int st_ = thr[t].status; if (st_ == ST_L || st_ == ST_W || st_ == ST_S || st_ == ST_C || st_ == ST_U) fc[nf++] = t; }
+			if (nf > 0) { t = fc[rnd () % nf]; do_fail (t); fprintf (out, "fail %d\n", t); continue; }
+		}
 		if (nb > 0 && (int) (rnd () % 100) < spur_pct) {
 			t = blk[rnd () % nb];
 			do_spur (t);
@@ -416,18 +492,18 @@ int main (void) {
 		}
 		else if (!strcmp (tok[0], "start") && nt == 1) { if (do_start ()) print_status (); else fprintf (out, "bad-op\n"); }
 		else if (!strcmp (tok[0], "run") && (nt == 2 || nt == 3)) {
-			if (!started) fprintf (out, "bad-op\n");
+			if (!started || freed) fprintf (out, "bad-op\n");
 			else if (do_run (atoi (tok[1]), nt == 3 ? atoi (tok[2]) : -1)) print_status ();
 			else fprintf (out, "not-enabled\n");
 		}
 		else if (!strcmp (tok[0], "spur") && nt == 2) {
-			if (!started) fprintf (out, "bad-op\n");
+			if (!started || freed) fprintf (out, "bad-op\n");
 			else if (do_spur (atoi (tok[1]))) print_status ();
 			else fprintf (out, "not-enabled\n");
 		}
 		else if (!strcmp (tok[0], "reset") && nt == 1) { do_reset (); fprintf (out, "ok\n"); }
 		else if (!strcmp (tok[0], "twin") && nt == 1) {
-			if (!started) fprintf (out, "bad-op\n");
+			if (!started || freed) fprintf (out, "bad-op\n");
 			else fprintf (out, "twin %s\n", do_twin ());
 		}
 		else if (!strcmp (tok[0], "null") && nt == 2) {
@@ -436,10 +512,24 @@ int main (void) {
 			if (f < 0) fprintf (out, "bad-op\n");
 			else { int r = do_null (f); p_rwlock_free (NULL); fprintf (out, "null %s ret=%d%s\n", op_names[f], r, r ? " !NULL-ACCEPTED" : ""); }
 		}
-		else if (!strcmp (tok[0], "nospec") && nt == 1) { fprintf (out, started ? "bad-op\n" : "ok\n"); }
-		else if (!strcmp (tok[0], "auto") && nt == 4) {
-			if (!started) fprintf (out, "bad-op\n");
-			else { do_auto (strtoull (tok[1], NULL, 10), atol (tok[2]), atoi (tok[3])); print_status (); }
+		else if (!strcmp (tok[0], "nospec") && nt == 1) { if (started) fprintf (out, "bad-op\n"); else { nospec = 1; fprintf (out, "ok\n"); } }
+		else if (!strcmp (tok[0], "auto") && (nt == 4 || nt == 5)) {
+			if (!started || freed) fprintf (out, "bad-op\n");
+			else { do_auto (strtoull (tok[1], NULL, 10), atol (tok[2]), atoi (tok[3]), nt == 5 ? atoi (tok[4]) : 0); print_status (); }
+		}
+		else if (!strcmp (tok[0], "fail") && nt == 2) {
+			if (!started || freed) fprintf (out, "bad-op\n");
+			else if (do_fail (atoi (tok[1]))) print_status ();
+			else fprintf (out, "not-enabled\n");
+		}
+		else if (!strcmp (tok[0], "free") && nt == 1) {
+			if (!started || freed) fprintf (out, "bad-op\n");
+			else do_free ();
+		}
+		else if (!strcmp (tok[0], "newfail") && nt == 2) {
+			int k = atoi (tok[1]);
+			if (k < 0 || k > 3 || strlen (tok[1]) != 1 || tok[1][0] < '0' || tok[1][0] > '3') fprintf (out, "bad-op\n");
+			else do_newfail (k);
 		}
 		else fprintf (out, "bad-op\n");
 		fflush (out);
